@@ -303,7 +303,33 @@ func (b *Builder) Implies(a, c *Term) *Term { return b.Or(b.Not(a), c) }
 // OrdW is the width reserved for ordinal strings (see package sym): 0 is "", k>0 is the 16-digit hex of k.
 const OrdW = 61
 
+// IntFW is the width reserved for "intfloat" values: a float32/float64 known to hold an integer of small magnitude,
+// carried as a signed bit-vector so that + - < == are exact and cheap (see package sym).
+const IntFW = 47
+
+func (b *Builder) intFCoerce(x, y *Term) (*Term, *Term) {
+	xi := x.Sort.K == KBV && x.Sort.W == IntFW
+	yi := y.Sort.K == KBV && y.Sort.W == IntFW
+	if xi == yi {
+		return x, y
+	}
+	conv := func(t *Term) *Term {
+		if t.Sort.K == KFP && t.IsConst() {
+			f := fval(t)
+			if f == math.Trunc(f) && math.Abs(f) < 1<<40 {
+				return b.BVC(uint64(int64(f)), IntFW)
+			}
+		}
+		panic("smt: an intfloat value meets a float that is not a small integer constant: " + Print(t))
+	}
+	if xi {
+		return x, conv(y)
+	}
+	return conv(x), y
+}
+
 func (b *Builder) ordCoerce(x, y *Term) (*Term, *Term) {
+	x, y = b.intFCoerce(x, y)
 	xo := x.Sort.K == KBV && x.Sort.W == OrdW
 	yo := y.Sort.K == KBV && y.Sort.W == OrdW
 	if xo == yo {
